@@ -299,10 +299,14 @@ class SimLock:
         self.by_baton = False
 
     def acquire(self, blocking=True, timeout=-1):
+        k = self.k
+        if k is not None and k.cur_thread is not None and k.baton_locks == 0 and not k.aborting:
+            # taking a lock is a pre-emption point of a baton thread: whatever is due (another thread that was
+            # notified, an arriving datagram) runs first, as it could on a real machine
+            k.yield_point()
         if self.held:
             raise HarnessError("SimLock contended: a thread parked while holding the lock")
         self.held = True
-        k = self.k
         if k is not None and k.cur_thread is not None:
             self.by_baton = True
             k.baton_locks += 1
@@ -312,7 +316,10 @@ class SimLock:
         self.held = False
         if self.by_baton:
             self.by_baton = False
-            self.k.baton_locks -= 1
+            k = self.k
+            k.baton_locks -= 1
+            if k.baton_locks == 0 and k.cur_thread is not None and not k.aborting:
+                k.yield_point()          # ... and so is giving it back
 
     def __enter__(self):
         self.acquire()
@@ -344,10 +351,11 @@ class SimCondition:
         if not k.on_baton():
             raise HarnessError("Condition.wait from event context")
         t = k.cur_thread
-        self.lock.release()
+        # register as a waiter BEFORE the lock is given up: Condition.wait releases and waits atomically
         self.waiters.append(t)
         t.waiting_on = self
         k.rec("cv_wait", t.name)
+        self.lock.release()
         if timeout is not None:
             k.at(k.now + timeout, t.node, self._timeout, t)
         try:
@@ -365,6 +373,8 @@ class SimCondition:
             self.k._resume(t)
 
     def notify_all(self):
+        if not self.lock.held:
+            raise RuntimeError("cannot notify on un-acquired lock")       # as threading.Condition does
         ws, self.waiters = self.waiters, []
         for t in ws:
             lag = self.wake_lag() if self.wake_lag else 0.0
